@@ -37,6 +37,7 @@ var (
 	c02verifies    = core.RegCounter("c02.single_verifications_of_produced_signatures")
 	c02batches     = core.RegCounter("c02.batch_verifications_of_produced_signatures")
 	c02wire        = core.RegCounter("c02.wire_alterations")
+	c02bigBatches  = core.RegCounter("c02.batches_past_the_bucket_method_threshold")
 	c02wirePair    = core.RegCounter("c02.wire_correlated_alterations_of_two_signatures")
 	c02wireSig     = core.RegCounter("c02.wire.signature_bit")
 	c02wireMsg     = core.RegCounter("c02.wire.message")
@@ -352,6 +353,51 @@ func c02AllPaths(r *core.Run, pk, msg, sig []byte, v c02Variant) (acc, total int
 				acc++
 			} else if detail == "" {
 				detail = "batch-only/" + c02presetNames[i]
+			}
+		}
+		// ... and in a batch of the size a block validator builds (past the threshold at which the batch
+		// equation switches to the bucket method), among another signer's valid entries, at a drawn position
+		if c02companion != nil && r.T.W(24) == 0 {
+			n := 95 + r.T.W(10)
+			pos := r.T.W(n)
+			big := ed25519.NewBatchVerifier()
+			if r.T.W(2) == 1 {
+				big.ForceNoPublicKeyExpansion()
+			}
+			co := &ed25519.Options{Verify: p}
+			for k := 0; k < n; k++ {
+				if k == pos {
+					big.AddWithOptions(pk, msg, sig, o)
+				} else {
+					big.AddWithOptions(c02companion.pk, c02companion.msg, c02companion.sig, co)
+				}
+			}
+			r.Count(c02bigBatches)
+			bo := false
+			if !p.CofactorlessVerify {
+				bo = big.VerifyBatchOnly(NewDetReader(uint64(i) + 31))
+				total++
+				if bo {
+					acc++
+				} else if detail == "" {
+					detail = "batch-only of a large batch/" + c02presetNames[i]
+				}
+			}
+			_, bres := big.Verify(NewDetReader(uint64(i) + 32))
+			total++
+			others := len(bres) == n
+			for k := range bres {
+				if k != pos && !bres[k] {
+					others = false
+				}
+			}
+			if !others && len(r.Main.Fails()) == 0 {
+				r.Fail("completeness", "companion-rejected-in-large-batch", "in a %d-entry batch (%s) another signer's valid entries were reported invalid: %v", n, c02presetNames[i], bres)
+			}
+			if len(bres) == n && bres[pos] {
+				acc++
+			} else if detail == "" {
+				detail = "large batch/" + c02presetNames[i]
 			}
 		}
 	}
